@@ -1,20 +1,39 @@
 #!/usr/bin/env python3
-"""For every 'fixed' finding: revert its commit in /repo's working tree, run
-the finding's replay, expect a VIOLATION; restore the tree."""
-import json, subprocess, sys
+"""For every 'fixed' finding: revert its commit in a scratch worktree of
+/repo (never in /repo itself), run the finding's replay against that tree
+(PYCEL_REPO_SRC) and expect a VIOLATION; then against /repo and expect none.
+The scratch worktree is removed at the end."""
+import json
+import os
+import subprocess
+import sys
+
+WT = os.environ.get('SEED_WT', '/tmp/wt-fixed-replays')
 data = json.load(open('/verif/KNOWN_FINDINGS.json'))
-assert not subprocess.run(['git', '-C', '/repo', 'status', '--porcelain', '--untracked-files=no'], capture_output=True, text=True).stdout.strip()
-for e in data['findings']:
-    if e['status'] != 'fixed':
-        continue
-    patch = subprocess.run(['git', '-C', '/repo', 'show', e['commit']], capture_output=True, text=True).stdout
-    r = subprocess.run(['git', '-C', '/repo', 'apply', '-R', '--3way'], input=patch, capture_output=True, text=True)
-    if r.returncode != 0:
-        subprocess.run(['git', '-C', '/repo', 'checkout', '--', '.'])
-        subprocess.run(['git', '-C', '/repo', 'reset', '-q'])
-        print(f"{e['id']:40s} revert-conflict")
-        continue
-    run = subprocess.run(['./check', e['property'], '--replay', e['replay']], cwd='/verif', capture_output=True, text=True)
-    print(f"{e['id']:40s} exit={run.returncode} {'DETECTS' if run.returncode == 1 else 'MISSES'}")
-    subprocess.run(['git', '-C', '/repo', 'reset', '-q'])
-    subprocess.run(['git', '-C', '/repo', 'checkout', '--', '.'])
+subprocess.run(['git', '-C', '/repo', 'worktree', 'remove', '--force', WT],
+               capture_output=True)
+subprocess.run(['git', '-C', '/repo', 'worktree', 'add', '--detach', WT,
+                'HEAD'], capture_output=True, check=True)
+only = sys.argv[1:]
+try:
+    for e in data['findings']:
+        if e['status'] != 'fixed' or (only and e['id'] not in only):
+            continue
+        subprocess.run(['git', '-C', WT, 'reset', '-q', '--hard', 'HEAD'])
+        r = subprocess.run(['git', '-C', WT, 'revert', '-n', e['commit']],
+                           capture_output=True, text=True)
+        if r.returncode != 0:
+            print(f"{e['id']:40s} revert-conflict")
+            continue
+        env = dict(os.environ, PYCEL_REPO_SRC=WT + '/src')
+        cmd = ['./check', e['property'], '--replay', e['replay']]
+        bad = subprocess.run(cmd, cwd='/verif', capture_output=True,
+                             text=True, env=env)
+        good = subprocess.run(cmd, cwd='/verif', capture_output=True,
+                              text=True)
+        print(f"{e['id']:40s} reverted: exit={bad.returncode} "
+              f"{'DETECTS' if bad.returncode == 1 else 'MISSES'}   "
+              f"head: exit={good.returncode}", flush=True)
+finally:
+    subprocess.run(['git', '-C', '/repo', 'worktree', 'remove', '--force',
+                    WT])
